@@ -284,7 +284,7 @@ int gc_gen(cs_t *cs, gcase_t *c, const runcfg_t *cfg, int prop) {
     c->out_null = (r->out_kind != OUT_NONE || r->ret_kind == RK_PTR_ERRP) ? cs_range(cs, 0, 39) == 0 : 0;
     c->src_first = (uint8_t)cs_range(cs, 0, 1);
     if (r->fl & F_NONULL) c->dest_null = c->src_null = c->out_null = 0;
-    c->alpha = (int)cs_range(cs, 0, 3);
+    c->alpha = (int)cs_range(cs, 0, 4);
     if (prop == 4) c->alpha = c->alpha & 2; /* alphabets 0 ('a','b') and 2 (blanks): disjoint from the prefill */
     c->cseed = (uint32_t)cs_noise(cs, 0, 0xffffff);
     return 1;
@@ -302,6 +302,14 @@ static uint32_t alpha_elem(int alpha, int w, uint32_t *s) {
     case 0: return a0[lcg(s) % 2];
     case 1: return w == 1 ? a1[lcg(s) % 8] : (w == 4 ? w1[lcg(s) % 8] : a1[lcg(s) % 8]);
     case 2: return ' ' + lcg(s) % 2 * ('\t' - ' ') ; /* whitespace only */
+    case 4: /* printable ASCII, password-like mix: every punctuation character, letters of both cases, digits */
+        v = lcg(s);
+        switch (v % 10) {
+        case 0: case 1: case 2: return 'a' + (v >> 4) % 26;
+        case 3: case 4: case 5: return 'A' + (v >> 4) % 26;
+        case 6: return '0' + (v >> 4) % 10;
+        default: { static const char sp[] = "!\"#$%&'()*+,-./:;<=>?@[\\]^_`{|}~"; return (unsigned char)sp[(v >> 4) % 32]; }
+        }
     default:
         v = lcg(s);
         if (w == 1) { v &= 0xff; if (!v) v = 1; }
